@@ -35,3 +35,5 @@ Fixpoint xtrace (w : wallet) (ops : list xop) : list (list (list (list Z))) :=
   | [] => []
   | o :: r => let '(w', rc) := xstep w o in ([rc] :: project w') :: xtrace w' r
   end.
+
+Definition xrun (w : wallet) (ops : list xop) : wallet := fold_left (fun w o => fst (xstep w o)) ops w.
